@@ -17,6 +17,7 @@ import (
 	"sort"
 	"strings"
 	"time"
+	"unsafe"
 
 	"github.com/spf13/viper"
 	"go.uber.org/zap"
@@ -54,6 +55,7 @@ const (
 	sigNoKVRecord   = "valid-kv-tx-without-record"          // (v)
 	sigGhostReceipt = "invalid-tx-left-a-receipt"
 	sigGhostKV      = "invalid-kv-tx-left-a-record"
+	sigVerdictRace  = "verifier-publishes-status-before-data-race" // verifycpuparallel.go: oribys / err stored after the status
 	sigExecErr      = "onexecute-returns-error"
 	sigCommitErr    = "oncommit-fails"
 )
@@ -82,6 +84,15 @@ type Case struct {
 	// Excluded names the listed open findings whose triggering shape the generator replaced in
 	// this case (evidence label only).
 	Excluded []string `json:"excluded,omitempty"`
+	// Stress, when set, replaces the blocks: Iters executions of one block of Txs undecodable
+	// transactions on one application, checking only the valid/invalid partition (leg verdictrace).
+	Stress *StressSpec `json:"stress,omitempty"`
+}
+
+type StressSpec struct {
+	Kind  string `json:"kind"` // undecodable | unsigned
+	Txs   int    `json:"txs"`
+	Iters int    `json:"iters"`
 }
 
 type Fail struct {
@@ -492,7 +503,32 @@ func hx(b []byte) string {
 	return fmt.Sprintf("%x", b)
 }
 
+// execCase evaluates the case; a verdict for an unsigned/undecodable transaction that an
+// immediate second evaluation of the same history does not reproduce depends on goroutine
+// timing and is attributed to the verifier's publication race (tryValidate stores the failed
+// status before the error, so the executing loop can read a nil error).
 func execCase(c Case) Result {
+	r := execCaseOnce(c)
+	for i, f := range r.Fails {
+		if f.Sig != sigUndecodable {
+			continue
+		}
+		again := false
+		for _, f2 := range execCaseOnce(c).Fails {
+			if f2.Sig == sigUndecodable {
+				again = true
+			}
+		}
+		if !again {
+			r.Fails[i].Sig = sigVerdictRace
+			r.Fails[i].Msg += " -- not reproduced by an immediate second execution of the same history: the verdict depends on goroutine timing"
+		}
+		break
+	}
+	return r
+}
+
+func execCaseOnce(c Case) Result {
 	e := &evaluator{labels: map[string]bool{}}
 	root, err := os.MkdirTemp(scratchRoot(), "case-")
 	if err != nil {
@@ -500,6 +536,9 @@ func execCase(c Case) Result {
 		return e.finish()
 	}
 	defer os.RemoveAll(root)
+	if c.Stress != nil {
+		return execStress(c, e, root)
+	}
 	if c.Routines > 0 {
 		setVerifierRoutines(c.Routines)
 	} else {
@@ -606,21 +645,9 @@ func execCase(c Case) Result {
 			invalid[i] = v.Bytes
 			e.label("invalid-because:%s", errClass(v.Error))
 		}
-		cnt := map[string]int{}
-		for _, t := range txs {
-			cnt[string(t)]++
-		}
-		for _, t := range valid {
-			cnt[string(t)]--
-		}
-		for _, t := range invalid {
-			cnt[string(t)]--
-		}
-		for k, v := range cnt {
-			if v != 0 {
-				e.fail(sigPartition, "height %d: tx %s occurs %d time(s) more in the block than in ValidTxs+InvalidTxs (block %d txs, valid %d, invalid %d)", height, hx([]byte(k)), v, len(txs), len(valid), len(invalid))
-				return e.finish()
-			}
+		if sig, msg := checkPartition(height, txs, valid, invalid); sig != "" {
+			e.fail(sig, "%s", msg)
+			return e.finish()
 		}
 		asg := assignments(txs, valid, invalid, 64)
 		if len(asg) == 0 {
@@ -885,6 +912,124 @@ func execCase(c Case) Result {
 	}
 	e.label("txs:%s", bucket(totalTxs))
 	e.res.NonTrivial = nontrivial
+	return e.finish()
+}
+
+// checkPartition decides oracle (iii): the block's transactions are, as a multiset, exactly
+// ValidTxs + InvalidTxs. A list entry that is nil/empty (or a torn slice header) although the
+// block has no such transaction is the mark of the data race in verifycpuparallel.go
+// (txQueue publishes the status before it stores oribys, the main loop reads oribys).
+func checkPartition(height int64, txs, valid, invalid [][]byte) (sig, msg string) {
+	emptyInBlock := 0
+	for _, t := range txs {
+		if len(t) == 0 {
+			emptyInBlock++
+		}
+	}
+	emptyInLists := 0
+	for _, l := range [][][]byte{valid, invalid} {
+		for _, t := range l {
+			if len(t) > 0 && unsafe.SliceData(t) == nil {
+				return sigVerdictRace, fmt.Sprintf("height %d: a ValidTxs/InvalidTxs entry is a torn slice (nil data, length %d)", height, len(t))
+			}
+			if len(t) == 0 {
+				emptyInLists++
+			}
+		}
+	}
+	cnt := map[string]int{}
+	for _, t := range txs {
+		cnt[string(t)]++
+	}
+	for _, t := range valid {
+		cnt[string(t)]--
+	}
+	for _, t := range invalid {
+		cnt[string(t)]--
+	}
+	keys := make([]string, 0, len(cnt))
+	for k := range cnt {
+		keys = append(keys, k)
+	}
+	sort.Strings(keys)
+	for _, k := range keys {
+		if v := cnt[k]; v != 0 {
+			if emptyInLists > emptyInBlock && len(txs) == len(valid)+len(invalid) {
+				for _, k2 := range keys {
+					if cnt[k2] > 0 {
+						k = k2
+						break
+					}
+				}
+				return sigVerdictRace, fmt.Sprintf("height %d: %d entr(y/ies) of ValidTxs+InvalidTxs carry no bytes although the block has %d empty txs; tx %s is reported in neither list (block %d txs, valid %d, invalid %d)", height, emptyInLists, emptyInBlock, hx([]byte(k)), len(txs), len(valid), len(invalid))
+			}
+			return sigPartition, fmt.Sprintf("height %d: tx %s occurs %d time(s) more in the block than in ValidTxs+InvalidTxs (block %d txs, valid %d, invalid %d)", height, hx([]byte(k)), v, len(txs), len(valid), len(invalid))
+		}
+	}
+	return "", ""
+}
+
+// execStress is the leg verdictrace: many executions of a block of undecodable transactions
+// (the cheapest path through the parallel verifier) looking only at oracle (iii).
+func execStress(c Case, e *evaluator, root string) Result {
+	setVerifierRoutines(c.Routines)
+	if c.Routines <= 0 {
+		setVerifierRoutines(runtime.NumCPU())
+	}
+	app, err := newApp(filepath.Join(root, "s"))
+	if err != nil {
+		e.res.Harness = "app: " + err.Error()
+		return e.finish()
+	}
+	defer func() { guarded(app.Stop) }()
+	txs := make([][]byte, c.Stress.Txs)
+	for i := range txs {
+		if c.Stress.Kind == "unsigned" { // decodable, but the signature values are all zero
+			txs[i] = buildEth(TxSpec{Kind: "eth", Nonce: uint64(i), To: addrs[1].Bytes(), Gas: 21000, Sig: "none"})
+		} else {
+			txs[i] = []byte{0x01, byte(i), byte(i >> 8), 0x55} // not RLP of a transaction
+		}
+	}
+	e.label("stress:%s", c.Stress.Kind)
+	e.label("routines:%d", c.Routines)
+	for it := 0; it < c.Stress.Iters; it++ {
+		var res gtypes.ExecuteResult
+		blk := mkBlock(1, txs)
+		if pi := guarded(func() {
+			r, _ := app.OnExecute(1, 0, blk)
+			if rr, ok := r.(gtypes.ExecuteResult); ok {
+				res = rr
+			}
+		}); pi != nil {
+			e.fail("onexecute-panics@"+pi.site, "OnExecute panicked on a block of %d undecodable txs: %s\n%s", len(txs), pi.val, clip(pi.stack, 3000))
+			return e.finish()
+		}
+		valid := make([][]byte, len(res.ValidTxs))
+		for i, v := range res.ValidTxs {
+			valid[i] = []byte(v)
+		}
+		invalid := make([][]byte, len(res.InvalidTxs))
+		for i, v := range res.InvalidTxs {
+			invalid[i] = v.Bytes
+		}
+		if sig, msg := checkPartition(1, txs, valid, invalid); sig != "" {
+			e.fail(sig, "execution %d of the block: %s", it, msg)
+			return e.finish()
+		}
+		if len(valid) != 0 {
+			sig, note := sigUndecodable, ""
+			for retry := 0; retry < 3; retry++ {
+				r2, _ := app.OnExecute(1, 0, mkBlock(1, txs))
+				if rr, ok := r2.(gtypes.ExecuteResult); ok && len(rr.ValidTxs) == 0 {
+					sig, note = sigVerdictRace, " -- an immediate re-execution of the same block reports all of them invalid: the verdict depends on goroutine timing (tryValidate stores the failed status before the error)"
+					break
+				}
+			}
+			e.fail(sig, "execution %d: %d of %d %s txs reported valid (first: %s)%s", it, len(valid), len(txs), c.Stress.Kind, hx(valid[0]), note)
+			return e.finish()
+		}
+	}
+	e.res.NonTrivial = true
 	return e.finish()
 }
 
